@@ -53,6 +53,7 @@ class Scenario:
         self._seen_s = 0
         self.stop = False
         self.bare = set()        # ends that handled a frame with a bare `deliver` and had no real round since
+        self.mu_bad = []         # real passes that did not decrease the termination measure although they changed the state
         self.wrote = {}          # (flow, 'app'|'dst') -> bytes written by the endpoint (harness log)
 
     # ---- bookkeeping of frames put on the wire (for the C09 oracle)
@@ -68,8 +69,15 @@ class Scenario:
         if st[0] == 'round':
             src = self.t.smux if st[1] == 'c' else self.t.cmux
             n0 = len(src.outbuf)
+            mu0, show0 = self.t.mu(), self.t.show()
         if not self.s.do(st):
             self.stop = True
+        if src is not None and not self.t.died:
+            # C02_bounded_work on the real objects: a real pass of the loop never raises the measure and lowers it
+            # whenever it changes anything
+            mu1 = self.t.mu()
+            if mu1 > mu0 or (mu1 == mu0 and self.t.show() != show0):
+                self.mu_bad.append((len(self.s.ins), mu0, mu1))
         if src is not None and len(src.outbuf) < n0:
             # frames really arrived in that pass: the real loop gave every Proxy of that end its callback after them
             self.bare.discard(st[1])
@@ -352,6 +360,13 @@ def oracle_quiet(ctx, sc, prop):
     hold (on the real objects and, through the driver line, on the model state): this is what ties the hypothesis of
     C02_quiet_complete to the real loop's notion of 'a loop pass changes nothing'."""
     t = sc.t
+    if getattr(sc, 'mu_bad', None):
+        at, mu0, mu1 = sc.mu_bad[0]
+        report(ctx, sc, '%s:work:loop-pass-changes-the-state-without-lowering-the-measure' % prop, 0, 'pass ending at script line %d' % at,
+               'a pass of the real loop that changes anything lowers the count of work left (C02_bounded_work)',
+               'measure %d -> %d' % (mu0, mu1))
+        sc.mu_bad = []
+        return False
     if t.died or t.cmux.outbuf or t.smux.outbuf:
         return True
     sc.do(('quiet',))
